@@ -66,7 +66,7 @@ func prefixSpec(nontrivial string, guards ...guard) *propSpec {
 	return &propSpec{
 		level: "exploration",
 		rule: "each history fixes a pool (/56-/64, /60-/64, /62-/64, /64-/64, /48-/52, /120-/124, ...), 1-6 clients (every DUID kind incl. opaque) and 20-60 messages (SOLICIT/REQUEST/RENEW/REBIND, 0-3 IA_PD x 0-3 IAPrefix hints from {none, length-only, length 0, own prefix, in-pool free/other's/own block, out-of-pool, longer than the allocation size, length > 128}, 0-2 relay layers, retransmissions) sent as wire bytes through HandleMsg6 into the plugin obtained from Plugin.Setup6; a per-client prefix model decides every reply and fresh clients drain the pool at the end (conservation). " + nontrivial,
-		assumptions: assume("no lease expiry/GC exists in the code: 'for as long as the server runs' = the length of the history", "length-only hints (::/64) are outside C09's obligations"),
+		assumptions: assume("no lease expiry/GC exists in the code: 'for as long as the server runs' = the length of the history; the thorough tier adds instances that are driven again after a real wait of one hour (every lifetime has run out: lapsed blocks may go to anyone, never to two clients at once)", "length-only hints (::/64) are outside C09's obligations"),
 		runs:        []runSpec{{engine: "prefix", qBatches: 32, qCases: 16, tBatches: 128, tCases: 400}, {engine: "prefixconc", race: true, parallel: 8, qBatches: 8, qCases: 12, tBatches: 64, tCases: 100}, hourRun()},
 		guards:      guards,
 	}
@@ -147,8 +147,8 @@ var specs = map[string]*propSpec{
 		guard{"prefix.hint.length-0", 200, "length-0 hints"}, guard{"prefix.audits", 300, "conservation audits"}, guard{"prefix.retransmissions", 500, "retransmissions"}),
 	"C10": {
 		level: "exploration",
-		rule: "three kinds of case, each in a fresh server process through LoadPlugins: (static) a generated lease file of 1-40 lines - every MAC spelling (colon/hyphen/dot, 6/8/20 bytes, case) and address spelling (dotted, v4-mapped, compressed/expanded/upper-case IPv6), tabs/multiple blanks, comments, blank lines, duplicates, and in a third of the files one malformation (field count, MAC, address, wrong family) at a random position - accepted iff the reference parser accepts it, and then every listed MAC (and 3 unlisted) is asked for: listed -> last address listed (yiaddr + chain ends; exactly one IA_NA with the request's IAID), unlisted / no IA_NA -> reply identical to the reply without the plugin; (refresh) autorefresh with 1-9 good/bad single-pwrite equal-length rewrites of self-identifying versions: each poll sequence must be old-or-new and monotone, a good version must be served for all MACs within 400 polls / 20 s (re-armed once), a bad one must leave the old version served; (dual) DHCPv4 and DHCPv6 instances in one process with their own files and independent rewrites. Non-trivial = static file with >= 2 entries or malformed, every refresh sequence, every dual case; distinct by content",
-		assumptions: assume("replacement of the file by rename (new inode) is outside 'rewrites' and not driven", "whitespace-only lines, indented comments and CR line endings are not classified by the statement and are not generated", "'eventually' is restated as bounded progress: 400 polls over >= 20 s with one re-arm"),
+		rule: "three kinds of case, each in a fresh server process through LoadPlugins: (static) a generated lease file of 1-40 lines - every MAC spelling (colon/hyphen/dot, 6/8/20 bytes, case) and address spelling (dotted, v4-mapped, compressed/expanded/upper-case IPv6), tabs/multiple blanks, comments, blank lines, duplicates, and in a third of the files one malformation (field count, MAC, address, wrong family) at a random position - accepted iff the reference parser accepts it, and then every listed MAC (and 3 unlisted) is asked for: listed -> last address listed (yiaddr + chain ends; exactly one IA_NA with the request's IAID), unlisted / no IA_NA -> reply identical to the reply without the plugin; (refresh) autorefresh with 1-10 good/bad updates of self-identifying versions, written in place (single equal-length pwrite) or installed by renaming a new file over the name, with or without a hard link that keeps the old file alive: each poll sequence must be old-or-new and monotone, a good version must be served for all MACs within 400 polls / 20 s (re-armed once), a bad one must leave the old version served; (dual) DHCPv4 and DHCPv6 instances in one process with their own files and independent rewrites. Non-trivial = static file with >= 2 entries or malformed, every refresh sequence, every dual case; distinct by content",
+		assumptions: assume("removing the file and creating it again (a window in which the name does not exist) is outside 'rewrites' and not driven", "whitespace-only lines, indented comments and CR line endings are not classified by the statement and are not generated", "'eventually' is restated as bounded progress: 400 polls over >= 20 s with one re-arm"),
 		runs:        []runSpec{{engine: "file", parallel: 12, qBatches: 24, qCases: 12, tBatches: 96, tCases: 120, stall: 6 * time.Minute}},
 		guards: []guard{{"file.static.malformed", 30, "malformed files"}, {"file.static.served", 500, "served listed clients"}, {"file.static.unlisted_untouched", 200, "unlisted clients"},
 			{"file.refresh.good_rewrites", 30, "good rewrites"}, {"file.refresh.bad_rewrites_held", 10, "bad rewrites"}, {"file.dual.requests", 30, "dual-stack requests"}},
